@@ -327,16 +327,47 @@ def ob_boundary_algebra():
                 return violated("(%s) * f: projections / spaces wrong: %s" % (lab, bad), signature="boundary/apply/" + lab, replay={"confirmed": False})
             n += 1
         # rejections
+        # operands that differ in exactly ONE of the three spaces (each compatibility test is exercised on its own)
+        a_ran, _ = _mkop("a_ran", sp["P"], sp["P"], sp["D0"], cache)      # like a, other range
+        a_dom, _ = _mkop("a_dom", sp["D1"], sp["D1"], sp["D0"], cache)    # like a, other domain
+        a_dual, _ = _mkop("a_dual", sp["P"], sp["D1"], sp["P"], cache)    # like a, other dual_to_range
         rejects = [("a + b (different spaces)", lambda: a + b), ("a * a (range of second != domain of first)", lambda: a * a), ("a + other grid", lambda: a + other),
-                   ("b * f (f not in the domain)", lambda: b * f), ("a + 3", lambda: a + 3), ("other * a", lambda: other * a)]
+                   ("b * f (f not in the domain)", lambda: b * f), ("a + 3", lambda: a + 3), ("other * a", lambda: other * a),
+                   ("a + a' (only the range differs)", lambda: a + a_ran), ("a' + a (only the range differs)", lambda: a_ran + a), ("a - a' (only the range differs)", lambda: a - a_ran),
+                   ("a + 2 a' (only the range differs)", lambda: a + 2.0 * a_ran),
+                   ("a + a' (only the domain differs)", lambda: a + a_dom), ("a + a' (only dual_to_range differs)", lambda: a + a_dual)]
         for lab, thunk in rejects:
             try:
                 r = thunk()
             except (ValueError, TypeError, AttributeError):
                 n += 1
                 continue
-            return violated("ill-typed combination `%s` is accepted and returns %r" % (lab, type(r).__name__), signature="boundary/reject/" + lab, replay={"confirmed": False})
+            rp = replay_boundary_reject()
+            return violated("ill-typed combination `%s` is accepted and returns %r" % (lab, type(r).__name__), signature="boundary/reject/" + lab,
+                            replay={"callable": "checks.c14:replay_boundary_reject", "kwargs": {}, "confirmed": rp["violates"], "result": rp})
     return proved("sym-exec+normal-form", "%d expressions / rejections" % n)
+
+
+def replay_boundary_reject():
+    """Native: sums of Laplace operators that differ in exactly one space must raise."""
+    import bempp_cl.api as api
+    from bempp_cl.api.operators.boundary import laplace
+
+    warnings.simplefilter("ignore")
+    g = SG.make_grid(*SG.octa())
+    p1, dp0 = api.function_space(g, "P", 1), api.function_space(g, "DP", 0)
+    par = Z.params(2, 2)
+    base = laplace.single_layer(dp0, p1, dp0, parameters=par)
+    accepted = []
+    for lab, other in (("range", laplace.single_layer(dp0, dp0, dp0, parameters=par)), ("domain", laplace.single_layer(p1, p1, dp0, parameters=par)),
+                       ("dual_to_range", laplace.single_layer(dp0, p1, p1, parameters=par))):
+        for expr, thunk in (("a + b", lambda: base + other), ("b + a", lambda: other + base), ("a - b", lambda: base - other)):
+            try:
+                thunk()
+            except (ValueError, TypeError, AttributeError):
+                continue
+            accepted.append("%s with different %s" % (expr, lab))
+    return {"violates": bool(accepted), "accepted": accepted}
 
 
 def ob_gridfunction_algebra():
@@ -432,9 +463,14 @@ def ob_blocked_algebra():
         # strong form: blockdiag(Minv(range_i, dual_i)) weak
         Mi = np.block([[minv(D1, D0), np.zeros((D1.global_dof_count, P.global_dof_count), dtype=object)],
                        [np.zeros((P.global_dof_count, D0.global_dof_count), dtype=object), minv(P, P)]])
-        bad = same(A.strong_form().to_dense(), Mi @ Aref)
+        try:
+            bad = same(A.strong_form().to_dense(), Mi @ Aref)
+        except Exception as ex:  # noqa  (a well-typed expression must not raise)
+            bad = "raises %s: %s" % (type(ex).__name__, str(ex)[:160])
         if bad:
-            return violated("blocked strong form: %s" % bad, signature="blocked/strong", replay={"confirmed": False})
+            rp = replay_blocked_strong()
+            return violated("blocked strong form (rows with range != dual_to_range) differs from blockdiag(Minv(range_i, dual_i)) weak(A): %s" % bad, signature="blocked/strong",
+                            replay={"callable": "checks.c14:replay_blocked_strong", "kwargs": {}, "confirmed": rp["violates"], "result": rp})
         n += 1
         # product needs range(second) == domain(first): C maps (P, D1) -> rows with ranges (P, D1)
         c00, C00 = _mkop("c00", P, P, P, cache)
@@ -490,6 +526,33 @@ def ob_blocked_algebra():
             return violated("ill-typed blocked combination `%s` is accepted and returns %r" % (lab, r), witness={"expression": lab}, signature="blocked/reject/" + lab,
                             replay={"callable": "checks.c14:replay_blocked_reject", "kwargs": {}, "confirmed": replay_blocked_reject()["violates"]})
     return proved("sym-exec+normal-form", "%d expressions / rejections" % n)
+
+
+def replay_blocked_strong():
+    """Native: 2x2 blocked Laplace operator whose first row has range DP1 and dual DP0... (range != dual, non-symmetric mixed mass matrix P1 x DP0):
+    strong_form() must equal blockdiag(M(range_i, dual_i)^-1) weak_form()."""
+    import bempp_cl.api as api
+    from bempp_cl.api.operators.boundary import laplace, sparse
+
+    warnings.simplefilter("ignore")
+    g = SG.make_grid(*SG.tetra())
+    p1, dp0 = api.function_space(g, "P", 1), api.function_space(g, "DP", 0)
+    par = Z.params(2, 2)
+    # 4 vertices and 4 faces on the tetrahedron: the mixed mass matrix <P1, DP0> is square but not symmetric
+    B = api.BlockedOperator(2, 2)
+    B[0, 0] = laplace.single_layer(dp0, p1, dp0, parameters=par)
+    B[0, 1] = laplace.single_layer(p1, p1, dp0, parameters=par)
+    B[1, 1] = laplace.single_layer(p1, dp0, p1, parameters=par)
+    try:
+        S_ = np.asarray(B.strong_form().to_dense())
+    except Exception as ex:  # noqa
+        return {"violates": True, "detail": "strong_form raises %s: %s" % (type(ex).__name__, ex)}
+    W = np.asarray(B.weak_form().to_dense())
+    M0 = np.asarray(sparse.identity(p1, p1, dp0, parameters=par).weak_form().to_dense())      # rows dual dp0, columns range p1
+    M1 = np.asarray(sparse.identity(dp0, dp0, p1, parameters=par).weak_form().to_dense())
+    Mi = np.block([[np.linalg.inv(M0), np.zeros((4, 4))], [np.zeros((4, 4)), np.linalg.inv(M1)]])
+    err = float(np.abs(S_ - Mi @ W).max() / np.abs(Mi @ W).max())
+    return {"violates": err > 1e-10, "relative_error": err}
 
 
 def replay_blocked_apply():
